@@ -12,8 +12,8 @@ from ..ctx import stable_hash
 
 ID = "C13"
 LEVEL = "exploration"
-TIERS = {"quick": {"shards": 16, "budget_s": 30, "runs": 100, "line_runs": 10, "systematic_pipelines": 2, "systematic_deviations": 1},
-         "thorough": {"shards": 16, "budget_s": 480, "runs": 9000, "line_runs": 600, "systematic_pipelines": 6, "systematic_deviations": 2}}
+TIERS = {"quick": {"shards": 16, "budget_s": 120, "runs": 100, "line_runs": 10, "systematic_pipelines": 2, "systematic_deviations": 1},
+         "thorough": {"shards": 16, "budget_s": 900, "runs": 9000, "line_runs": 600, "systematic_pipelines": 6, "systematic_deviations": 2}}
 RULE = ("Pipelines as the command line builds them - reader wrapped by the real StreamSaverWorker (its own writer thread), "
         "TokenizerWorker, AudioEventsJoinerWorker and RegionSaverWorker observers - run under the deterministic scheduler of C12 "
         "(strategies that make the writer lag or run ahead, timeout firings, line-level pre-emption), with cache sizes {1 byte, "
